@@ -21,17 +21,39 @@ const char *adapter_name = "slip";
 typedef struct { const unsigned char *p; size_t n, pos; size_t errpos; int errcode; int armed; } Src;
 typedef struct { unsigned char *b; size_t n, cap; size_t puts, at; int code; int armed; } Snk;
 
+static void slip_nested(void);
 static int src_octet(void *drv, void *out)
 {
     Src *s = drv;
+    slip_nested();
     if (s->armed && s->errpos != 0 && s->pos + 1 == s->errpos) { s->armed = 0; return s->errcode; }
     if (s->pos >= s->n) return -ENODATA;
     *(unsigned char *)out = s->p[s->pos++];
     return 1;
 }
+/* the sink may itself frame something else while it is being fed (every second call): encoder and decoder are expected to be re-entrant */
+static int nest_depth;
+static unsigned nest_calls;
+static ssize_t void_chunk(void *drv, const void *buf, size_t n) { (void)drv; (void)buf; return (ssize_t)n; }
+typedef struct { const unsigned char *p; size_t n, pos; } NArr;
+static int narr_octet(void *drv, void *out) { NArr *a = drv; if (a->pos >= a->n) return -ENODATA; *(unsigned char *)out = a->p[a->pos++]; return 1; }
+static void slip_nested(void)
+{
+    if (nest_depth || (nest_calls++ % 2)) return;
+    static const unsigned char raw[4] = { 192, 219, 1, 192 }, enc[6] = { 192, 219, 220, 219, 221, 192 };
+    NArr a1 = { raw, 4, 0 }, a2 = { enc, 6, 0 };
+    Source s1 = OCTET_SOURCE_INIT(narr_octet, &a1), s2 = OCTET_SOURCE_INIT(narr_octet, &a2);
+    Sink v = CHUNK_SINK_INIT(void_chunk, NULL);
+    RFC1055Context c1 = RFC1055_CONTEXT_INIT_WITH_SOF, c2 = RFC1055_CONTEXT_INIT_WITH_SOF;
+    nest_depth++;
+    (void)rfc1055_encode(&c1, &s1, &v);
+    (void)rfc1055_decode(&c2, &s2, &v);
+    nest_depth--;
+}
 static ssize_t snk_chunk(void *drv, const void *buf, size_t n)
 {
     Snk *k = drv;
+    slip_nested();
     if (k->armed && k->at != 0 && k->puts + 1 == k->at) { k->armed = 0; return k->code; }
     k->puts++;
     if (k->n + n > k->cap) return -ENOMEM; /* would be a "emits more than consumed" situation */
